@@ -2832,6 +2832,24 @@ class PGPKey(Armorable, ParentRef, PGPObject):
                 usable = [sk for sk in candidates if not sk.is_public and sk.is_unlocked]
                 return (usable or candidates)[0].decrypt(message)
 
+            if '0' * 16 in mis:
+                # RFC 4880 5.1: a key id of zero is a wild card ("hidden recipient", gpg --throw-keyids): the
+                # receiver tries its available secret keys on every such session key packet
+                for comp in [self] + list(self.subkeys.values()):
+                    if comp.is_public or comp._is_stub or not comp.is_unlocked:
+                        continue
+                    for pk in message._sessionkeys:
+                        if not (isinstance(pk, PKESessionKey) and pk.encrypter == '0' * 16 and pk.pkalg == comp.key_algorithm):
+                            continue
+                        try:
+                            alg, key = pk.decrypt_sk(comp._key)
+                            decmsg = PGPMessage()
+                            decmsg.parse(message.message.decrypt(key, alg))
+                            return decmsg
+                        except Exception:
+                            continue
+                raise PGPDecryptionError("None of the anonymous session key packets is for this key")
+
             raise PGPError("Cannot decrypt the provided message with this key")
 
         if not self.is_unlocked:
